@@ -5,7 +5,7 @@ PROPS = ["C19", "C20"]
 READY = False
 CLAIMS = {
  "C19": dict(technique="TLA+ refinement (StaticPredicate group / Epoch push-down / scan / post-filter model vs declarative filter) checked by TLC; every TLC-enumerated conjunction rendered as SQL text and executed by the real server on a fixed and a variable bucket",
-             text="Sql.tla models the WHERE pipeline as coded (AddComparison tightening, BETWEEN = (>,<), IsFalse short cut, Epoch push-down with its +-1 adjustment and literal kinds, interval scan / trimResultsToRange, per-column post-filter) next to the declarative filter. TLC checks exhaustively that the deviation-free pipeline equals the declarative filter for all conjunctions of <= 2 comparisons (thorough: plus simulated conjunctions of 3) over {Epoch, three value columns} x {<,<=,>,>=,=,BETWEEN} x bounds on / between / outside stored values x literal kinds {datetime string, epoch seconds, epoch nanoseconds}. All single comparisons and a seeded sample of the longer conjunctions are rendered as SQL text and run through DataService.Query on a 5-row fixed-length and a 6-row variable-length 1Min bucket; the returned rows must be exactly the rows the declarative filter selects from the rows a plain query returns.",
+             text="Sql.tla models the WHERE pipeline as coded (AddComparison tightening, BETWEEN = (>,<), IsFalse short cut, Epoch push-down with its +-1 adjustment and literal kinds, interval scan / trimResultsToRange, per-column post-filter) next to the declarative filter. TLC checks exhaustively that the deviation-free pipeline equals the declarative filter for all conjunctions of <= 2 comparisons (thorough: plus the conjunctions of 3 that extend every 300th pair) over {Epoch, three value columns} x {<,<=,>,>=,=,BETWEEN} x bounds on / between / outside stored values x literal kinds {datetime string, epoch seconds, epoch nanoseconds}. All single comparisons and a seeded sample of the longer conjunctions are rendered as SQL text and run through DataService.Query on a 5-row fixed-length and a 6-row variable-length 1Min bucket; the returned rows must be exactly the rows the declarative filter selects from the rows a plain query returns.",
              note="Trusted: TLC, the Python rendering (grid positions -> timestamps / literals, levels -> column values). Value literals are non-negative (unary minus is rejected by the parser with an explicit error) and integer for integer columns; <> is not part of the statement. A response without columns (provably false predicate) is read as zero rows."),
  "C20": dict(technique="TLA+ model of Project/Rename, LIMIT (pushed down or not) and InsertIntoStatement vs the relational answer, checked by TLC; TLC-enumerated statements executed as SQL text by the real server, INSERT targets re-queried",
              text="TLC enumerates every select list (ordered subsets of Epoch and three value columns, each item without alias, with a fresh alias or with an alias that is the name of another bucket column), LIMIT 0..rows+1 with and without WHERE, and INSERT INTO for source selections (no WHERE, lower/upper/BETWEEN Epoch range, value predicate, empty selection, LIMIT) x select lists containing Epoch x target timeframes (same, 5x, 60x; fixed and variable target), and checks that the deviation-free pipeline equals the relational answer. Every LIMIT value with and without WHERE, every select list of <= 2 items and a seeded sample of the rest (other WHERE clauses, longer lists, INSERTs) are executed as SQL text on a fixed and a variable bucket; result columns (by output name) and rows are compared; after INSERT the target bucket is queried with the plain query API and must hold the selected rows at timestamps truncated to the target timeframe.",
@@ -258,7 +258,7 @@ def chunked_run(binary, root, setup_ops, stmts, tag):
 
 def tlc_consts(b, depth, mod, salt, mod20, classes, rich=False):
     c = b.consts()
-    c.update(Depth=depth, Deviations="{" + ", ".join('"%s"' % d for d in ALL_DEVS) + "}", SampleMod=mod, SampleSalt=salt,
+    c.update(Depth=depth, Deviations="{" + ", ".join('"%s"' % d for d in ALL_DEVS) + "}", SampleMod=mod, SampleSalt=salt, TripleMod=300,
              TgtClasses="{" + ", ".join(str(x) for x in classes) + "}", SampleMod20=mod20, Rich="TRUE" if rich else "FALSE")
     return c
 
@@ -283,7 +283,7 @@ def run(prop, tier):
         if prop == "C19":
             cfg = "Sql_%s_where.cfg" % b.kind
             r = vlib.run_tlc("Sql", cfg, timeout=1500, heap="6g",
-                             cfg_text=vlib.cfg_text(tlc_consts(b, 2, 80 if quick else 4, salt, 1, [1]), spec="SpecW",
+                             cfg_text=vlib.cfg_text(tlc_consts(b, 2 if quick else 3, 80 if quick else 8, salt, 1, [1]), spec="SpecW",
                                                     invariants=["CheckW", "EmitW"]))
             vlib.tlc_ok(r, cfg)
             if r["violated"]:
@@ -292,16 +292,6 @@ def run(prop, tier):
             cs = r["records"].get("CASE", [])
             if r["records"].get("BAD"):
                 raise Undecided("unparsable TLC records: %s" % r["records"]["BAD"][:2])
-            if not quick:
-                cfg = "Sql_%s_where3.cfg" % b.kind
-                r = vlib.run_tlc("Sql", cfg, timeout=1500, heap="6g", simulate=4000, depth=4, workers=1, seed_=rng.randrange(1, 2 ** 31),
-                                 cfg_text=vlib.cfg_text(tlc_consts(b, 3, 1, salt, 1, [1]), spec="SpecW",
-                                                        invariants=["CheckW", "EmitW"]))
-                vlib.tlc_ok(r, cfg)
-                if r["violated"]:
-                    raise Undecided("MODEL-DRIFT: %s violates %s in the model\n%s" % (cfg, r["violated"], r["out"][-3000:]))
-                cs += [c for c in r["records"].get("CASE", []) if len(c["conj"]) == 3]
-                res.cov["simulated_conjunctions_of_3"] = res.cov.get("simulated_conjunctions_of_3", 0) + len([c for c in r["records"].get("CASE", []) if len(c["conj"]) == 3])
         else:
             cfg = "Sql_%s_select.cfg" % b.kind
             classes = [1, 2, 3] + ([4] if b.kind == "variable" else [])
